@@ -71,6 +71,24 @@ CHECKS = {
    text="The planner's floating-point search is not transcribed; the spec says what any returned plan must satisfy and TLC evaluates it per case: int = min(read, write), all chunks within budget, last write made of whole target chunks; for cubed's copy operations every copy region starts and ends on a boundary of the (regular or rectilinear) grid read from the really built array, copy chunk within (allowed - reserved) / copies, final chunks exactly as requested. Planner calls run under a timeout (termination) and may only refuse with ValueError / NotImplementedError. 30-600 rechunks are computed: elements preserved, chunks as requested.",
    note="Trusted: TLC as evaluator. Bounds: 1-3 dims, extents <= 24 (quick) / 120 (thorough). An earlier rule demanding source-aligned reads was a false alarm and was removed (DESIGN.md).",
    design_ref="DESIGN.md §5 C14, §4.10"),
+ "C16": dict(
+   engine="ApiTrace",
+   technique="TLA+ monitor ApiTrace.tla (reference-level API state machine, clause Lazy) over per-call observations at the Zarr store, executor and file-system boundaries; catalogue of all public callables enumerated by introspection + generated programs with plan() and visualize()",
+   text="Every public callable of cubed, cubed.array_api, linalg and random (~280 reached, the rest listed as uncatalogued in the evidence) and every build step / plan() / visualize() of generated programs is executed with observation on; the monitor requires zero store writes, deletes, data-chunk reads, new files below the work directory and executor entries for each such call.",
+   note="Trusted: TLC; the LocalStore wrapper and directory listing as the observers of side effects; arguments come from a recipe table, so argument forms outside it are not exercised.",
+   design_ref="DESIGN.md §5 C16"),
+ "C17": dict(
+   engine="ApiTrace",
+   technique="TLA+ monitor ApiTrace.tla (clause DeclinedEarly) over call-by-call builds, plans and computes of generated programs that NumPy evaluates, incl. an 'awkward layout' family",
+   text="Programs are built one API call at a time; an exception during build or plan must be ValueError / TypeError / NotImplementedError / IndexError, and once build and plan succeeded a fault-free compute must not fail (an admission refusal before the executor is entered is C04's business and is recognised as such).",
+   note="Trusted: TLC; the generator only emits expressions NumPy evaluates.",
+   design_ref="DESIGN.md §5 C17"),
+ "C19": dict(
+   engine="ApiTrace",
+   technique="TLA+ monitor ApiTrace.tla (clause ConfigInvariant) over the same scenario built, planned and computed under the global default configuration and explicit Specs differing in work_dir, intermediate store, compressor, reserved_mem, executor, allowed_mem",
+   text="One program per generator function (a helper array created without the caller's spec is the failure mode) plus compositions; acceptance (exception type and phase) and value hashes must agree across all configuration variants.",
+   note="Trusted: TLC; value identity by hash of the result arrays (floats rounded to 9 decimals).",
+   design_ref="DESIGN.md §5 C19"),
  "C15": dict(
    engine="Blockwise",
    technique="TLA+ module Blockwise.tla is the reference semantics of index notation and of fusion provenance; TLC evaluates it on thousands of enumerated cases (one implementation test per case) and the real key functions / fused specs must agree on every output block",
